@@ -428,6 +428,8 @@ type progRun struct {
 	space  string
 	// failed[g][sep]: the single-gap variant violates (g = len(toks)-1: trailing, len(toks): leading)
 	failed map[int]map[string]bool
+	// override: separators to try at every gap instead of the sets of the mode (space comment-contents)
+	override []string
 }
 
 func tokTexts(toks []token) []string {
@@ -595,6 +597,9 @@ func (p *progRun) atoms(mode atomMode) {
 				cands = sets.trail
 			default:
 				cands = sets.inner
+			}
+			if p.override != nil {
+				cands = p.override
 			}
 			for _, s := range cands {
 				if !admissible(a, s, b, p.c.comments) {
@@ -1100,6 +1105,80 @@ func runLayout(ctx *bex.Ctx, r *runner) {
 	r.done("layout-pairs", fmt.Sprintf("every valid program of %d..%d tokens %s x every pair of gaps x every pair of core separators, other gaps single blank", b.product+1, b.pairs, fixedNote))
 }
 
+// generatedComments are all block comments whose content is a string of <= n symbols over
+// {c * / LF blank "} (without a closing "*/" inside) and all line comments with a content of <= n-1
+// symbols over {c * / " '}, each bare and padded with blanks: every way a comment can begin and end.
+func generatedComments(n int) []string {
+	var out []string
+	var rec func(alpha []string, cur string, left int, emit func(string))
+	rec = func(alpha []string, cur string, left int, emit func(string)) {
+		emit(cur)
+		if left == 0 {
+			return
+		}
+		for _, a := range alpha {
+			rec(alpha, cur+a, left-1, emit)
+		}
+	}
+	rec([]string{"c", "*", "/", "\n", " ", "\""}, "", n, func(c string) {
+		if strings.Contains(c, "*/") {
+			return
+		}
+		out = append(out, "/*"+c+"*/", " /*"+c+"*/ ")
+	})
+	rec([]string{"c", "*", "/", "\"", "'"}, "", n-1, func(c string) {
+		out = append(out, "//"+c+"\n", " //"+c+"\n")
+	})
+	return out
+}
+
+// runCommentContents: a few fixed programs x every gap x every generated comment.
+func runCommentContents(ctx *bex.Ctx, r *runner) {
+	n := 3
+	if !ctx.Quick() {
+		n = 4
+	}
+	cands := generatedComments(n)
+	progs := []string{fixedPrograms[0], fixedPrograms[1], fixedPrograms[2], fixedPrograms[6], fixedPrograms[7], fixedPrograms[8], fixedPrograms[9], fixedPrograms[12], fixedPrograms[15], fixedPrograms[20], fixedPrograms[25]}
+	ctx.Space("comment-contents")
+	var idx int64
+	for _, comfort := range []bool{false, true} {
+		list := progs
+		if comfort {
+			list = append(append([]string{}, progs...), fixedComfort[0], fixedComfort[2])
+		}
+		for _, src := range list {
+			toks := mustLex(src)
+			// shard by (program, slice of the candidates)
+			const slice = 64
+			for from := 0; from < len(cands); from += slice {
+				idx++
+				if !ctx.Mine(idx) {
+					continue
+				}
+				if r.stop() {
+					break
+				}
+				c := getConfig(comfort, true)
+				ctx.Begin(func() map[string]any {
+					return map[string]any{"space": "comment-contents", "cfg": c.name, "tokens": tokTexts(toks)}
+				})
+				p := r.newProg(c, toks, false, "comment-contents")
+				if !p.anyValid() {
+					continue
+				}
+				to := from + slice
+				if to > len(cands) {
+					to = len(cands)
+				}
+				p.override = cands[from:to]
+				p.atoms(atomsExt)
+			}
+		}
+	}
+	r.done("comment-contents", fmt.Sprintf("%d fixed programs (+2 comfort-only) x comfort on/off, comments on x every gap (also leading and trailing) x %d generated comments: block comments with every content of <= %d symbols over {c * / LF blank \"} and line comments with every content of <= %d symbols over {c * / \" '}, bare and padded with blanks", len(progs), len(cands), n, n-1))
+}
+
 // adjKey is the class of a token for the adjacency statistics: keywords, punctuation and operators
 // individually, identifiers/numbers/strings by kind.
 func adjKey(t token) string {
@@ -1300,6 +1379,7 @@ func main() {
 			r := &runner{ctx: ctx}
 			runText(ctx, r)
 			runLayout(ctx, r)
+			runCommentContents(ctx, r)
 			runErrors(ctx, r)
 			ctx.Add("failing_parses", nFailingParses)
 			if r.capped {
